@@ -6,7 +6,6 @@ import (
 	"fmt"
 	"math/rand"
 	"sort"
-	"time"
 
 	"0chain.net/chaincore/transaction"
 	"0chain.net/core/config"
@@ -879,7 +878,9 @@ func StakePoolUnlock(t *transaction.Transaction, input []byte, balances cstate.S
 	if dp.StakedAt > 0 {
 		stakedAt := common.ToTime(dp.StakedAt)
 		minLockPeriod := config.SmartContractConfig.GetDuration("stakepool.min_lock_period")
-		if !stakedAt.Add(minLockPeriod).Before(time.Now()) {
+		// the transaction's own time, not the executing node's wall clock: every node
+		// that executes this transaction must reach the same decision
+		if !stakedAt.Add(minLockPeriod).Before(common.ToTime(t.CreationDate)) {
 			return "", common.NewErrorf("stake_pool_unlock_failed", "token can only be unstaked till: %s", stakedAt.Add(minLockPeriod))
 		}
 	}
